@@ -95,8 +95,11 @@ def universe_ser_ok(u):
 
 # ------------------------------------------------------------------ values
 class ValueGen:
-    def __init__(self, rng, U):
+    def __init__(self, rng, U, canonical=False):
+        """canonical: values carry the classes deserialization builds (list for Sequence / Collection, set for AbstractSet,
+        JSON-like values for Any)"""
         self.rng, self.U, self.u = rng, U, U.u
+        self.canonical = canonical
 
     def value(self, t, depth=3, top=False):
         rng = self.rng
@@ -112,6 +115,8 @@ class ValueGen:
         if k == "str":
             return rng.choice(["", "a", "ab", "x"])
         if k == "any":
+            if self.canonical:
+                return rng.choice([None, 1, "a", 1.5, True, [1, "a"], {"k": [1]}, {"k": None}, [], {}])
             return rng.choice([None, 1, "a", 1.5, True, [1, "a"], (1, 2), {"k": [1]}, {"k": None}, [], {}])
         if k == "lit":
             return rng.choice(t[1])
@@ -131,16 +136,14 @@ class ValueGen:
                 return elts
             if kind == "vartuple":
                 return tuple(elts)
-            if kind == "sequence":
-                return rng.choice([list, tuple])(elts)
-            if kind == "collection":
-                return rng.choice([list, tuple])(elts)
+            if kind in ("sequence", "collection"):
+                return elts if self.canonical else rng.choice([list, tuple])(elts)
             try:
                 if kind == "set":
                     return set(elts)
                 if kind == "frozenset":
                     return frozenset(elts)
-                return rng.choice([set, frozenset])(elts)
+                return set(elts) if self.canonical else rng.choice([set, frozenset])(elts)
             except TypeError:
                 return set() if kind == "set" else frozenset()
         if k == "tuple":
@@ -181,11 +184,11 @@ class ValueGen:
                 continue
             kw[f["name"]] = self.value(f["ty"], depth - 1)
         if c["kind"] == "typeddict":
-            if rng.random() < 0.2:
+            if rng.random() < 0.2 and not self.canonical:
                 kw["extra_key"] = rng.choice([1, "z", [1]])
             return kw
         o = cls(**kw)
-        if c.get("fields_set") and rng.random() < 0.4 and c["fields"]:
+        if c.get("fields_set") and rng.random() < 0.4 and c["fields"] and not self.canonical:
             from apischema.fields import unset_fields, set_fields
             f = rng.choice(c["fields"])
             if rng.random() < 0.5:
@@ -250,7 +253,7 @@ def satisfies(t, v, u, mod=None):
     if k == "none":
         return v is None
     if k == "obj":
-        if not (isinstance(v, dict) or dataclasses.is_dataclass(v) or isinstance(v, tuple)):
+        if not (isinstance(v, dict) or type(v).__name__ == f"C{t[1]}"):
             return False
         c = u["classes"][t[1]]
         for f in c["fields"]:
